@@ -68,45 +68,45 @@ namespace c17
             L += std::fabs(p[i] - p[i - 1]);
         return L;
     }
-    // returns "" when the contract holds, else the clause that fails
+    // returns "" when the contract holds, else "<clause of PathOps.tla>|<what was observed>"
     inline std::string contract1(const std::string &op, const json &a, const std::vector<double> &p,
                                  const std::vector<double> &q)
     {
         for (double v : q)
             if (!std::isfinite(v))
-                return "a state is not finite";
+                return "Finite|a state is not finite";
         if (q.empty() || !embeds(p, q, 0, 0))
-            return "original vertices do not appear in order with the new states on their segments";
+            return "VerticesInOrderOnSegments|original vertices do not appear in order with the new states on their segments";
         if (std::fabs(len1(q) - len1(p)) > 1e-9)
-            return "length changed";
+            return "LengthUnchanged|length changed";
         const std::size_t n = p.size();
         if (op == "Subdivide")
         {
             if (n < 2)
-                return q == p ? "" : "path with fewer than 2 states changed";
+                return q == p ? "" : "SubdivideContract|path with fewer than 2 states changed";
             if (q.size() != 2 * n - 1)
-                return "subdivide: " + std::to_string(q.size()) + " states instead of 2n-1";
+                return "SubdivideContract|subdivide: " + std::to_string(q.size()) + " states instead of 2n-1";
             for (std::size_t i = 0; i < n; ++i)
                 if (q[2 * i] != p[i])
-                    return "subdivide: original vertex not at its odd position";
+                    return "SubdivideContract|subdivide: original vertex not at its odd position";
             for (std::size_t i = 0; i + 1 < n; ++i)
                 if (2 * q[2 * i + 1] != p[i] + p[i + 1])
-                    return "subdivide: inserted state is not the middle of its segment";
+                    return "SubdivideContract|subdivide: inserted state is not the middle of its segment";
         }
         else if (op == "InterpolateCount")
         {
             std::size_t c = a[0].get<std::size_t>();
             if (c < n || n < 2)
-                return q == p ? "" : "interpolate(count): path changed although it has at least count states";
+                return q == p ? "" : "CountContract|interpolate(count): path changed although it has at least count states";
             if (q.size() != c)
-                return "interpolate(count): " + std::to_string(q.size()) + " states instead of " + std::to_string(c);
+                return "CountContract|interpolate(count): " + std::to_string(q.size()) + " states instead of " + std::to_string(c);
         }
         else if (op == "InterpolateAll")
         {
             double L = a[0].get<double>() / a[1].get<double>(), F = a[2].get<double>();
             for (std::size_t k = 0; k + 1 < q.size(); ++k)
                 if (F * std::fabs(q[k + 1] - q[k]) > L + 1e-12)
-                    return "interpolate(): consecutive states further apart than a validity checking step";
+                    return "ResolutionContract|interpolate(): consecutive states further apart than a validity checking step";
         }
         return "";
     }
@@ -175,7 +175,7 @@ namespace c17
             std::string why = contract1(op, a, p, q);
             // PathGeometric::length() is part of the property ("leaves length unchanged")
             if (why.empty() && std::fabs(path.length() - lenBefore) > 1e-9)
-                why = "length() changed";
+                why = "LengthUnchanged|length() changed";
             if (!why.empty())
             {
                 json sc = c;
